@@ -35,7 +35,7 @@ claimed = {
 TECH = "Lean 4 theorems over a hand-written model + differential correspondence check against /repo"
 
 # theorem files still being written (not claimed until they are complete and build)
-PENDING = set(os.environ.get("VERIF_PENDING", "C19").split())
+PENDING = set(os.environ.get("VERIF_PENDING", "").split())
 
 def have_props(pid):
     if pid in PENDING:
